@@ -104,10 +104,7 @@ FIRING = [
             self._func()""", """        if self._count == 1:
             self._func()
         super().__exit__(exc_type, exc_val, exc_tb)""")]),
-    dict(id="c05-clear-rebinds", fires={"C05": "C05.d"},
-         edits=[(DT + "synced_dict.py", """            with self._save_only:
-                self._data.clear()""", """            with self._save_only:
-                self._data = {}""")]),
+
     dict(id="c05-flush-dict-only", fires={"C05": "C05.e"},
          edits=[(BUF + "memory_buffered_collection.py", """            data = self._to_base()
             self._data = type(self._data)()
@@ -376,13 +373,7 @@ _collection_resolver = AbstractTypeResolver("""),
     dict(id="c12-tuple-not-a-sequence-for-lists", fires={"C12": "C12.b"},
          edits=[(DT + "synced_list.py", "lambda obj: (isinstance(obj, Sequence) and not isinstance(obj, str))", "lambda obj: (isinstance(obj, tuple) and not isinstance(obj, str))")]),
     # ------------------------------------------------------------- C13 / C15
-    dict(id="c13-size-update-outside-lock", fires={"C13": "C13.a"},
-         edits=[(BUF + "memory_buffered_collection.py", """        with self._buffer_lock:
-            type(self)._buffered_collections[id(self)] = self
 
-            if self._filename in type(self)._buffer:""", """        type(self)._buffered_collections[id(self)] = self
-        with self._buffer_lock:
-            if self._filename in type(self)._buffer:""")]),
     dict(id="c15-size-update-outside-branch", fires={"C15": "C15.a"},
          edits=[(BUF + "memory_buffered_collection.py", """                    type(self)._buffer[self._filename]["modified"] = True
                     type(self)._CURRENT_BUFFER_SIZE += 1""", """                    type(self)._buffer[self._filename]["modified"] = True
@@ -452,6 +443,19 @@ _collection_resolver = AbstractTypeResolver("""),
 ]
 
 SILENT = [
+    # The next two were firing variants of the first corpus; after the fixes K6 (_save_to_buffer stores the saver's
+    # container) and K3 (root clear/reset hold the buffer lock like every other write) they are behaviour preserving.
+    dict(id="s-clear-rebinds-then-saves", props=["C05", "C06", "C01", "C16"],
+         edits=[(DT + "synced_dict.py", """            with self._save_only:
+                self._data.clear()""", """            with self._save_only:
+                self._data = {}""")]),
+    dict(id="s-registration-before-inner-lock", props=["C13", "C14", "C06", "C05"],
+         edits=[(BUF + "memory_buffered_collection.py", """        with self._buffer_lock:
+            type(self)._buffered_collections[id(self)] = self
+
+            if self._filename in type(self)._buffer:""", """        type(self)._buffered_collections[id(self)] = self
+        with self._buffer_lock:
+            if self._filename in type(self)._buffer:""")]),
     dict(id="s-comments-and-blank-lines", props="*",
          edits=[(DT + "synced_dict.py", "    def keys(self):  # noqa: D102\n", "    # a comment\n\n    def keys(self):  # noqa: D102\n        # load first\n"),
                 (BUF + "file_buffered_collection.py", "        issues = {}\n", "        issues = {}  # per-file errors\n\n")]),
